@@ -222,6 +222,52 @@ theorem c08_arraymorph_retry_witness : ¬ c08_arraymorph_retry_full := by
   revert this
   decide
 
+/-! ### the caller's list of included files (follow-up on the repaired tree; open finding) -/
+
+/-- `read_neuroml2_file(f, include_includes=True, already_included=L)` with a list `L` owned by the caller, as the
+    code is today: every included file is marked in `L` (field 3) *before* it is read (that is what stops include
+    cycles) and the mark is never taken back; reading the include opens and closes its own handle. -/
+def inclToday : Stmt :=
+  .loop 1 (.seq (.mutate 3 1)
+    (.choice 2
+      (.opaque .export 2 3 4)                                             -- an XML include: parsed by lxml
+      (.seq (.call (.open_ 1) 3) (.tryFinally 4 (.opaque .readNode 5 5 6) (.call (.close 1) 6)))))   -- an HDF5 include
+
+/-- with the proposed repair (fixes/C08-already-included-restored.patch): marks made by a failed read are removed -/
+def inclFixed : Stmt :=
+  .loop 1 (.seq (.mutate 3 1) (.tryFinally 7
+    (.choice 2
+      (.opaque .export 2 3 4)
+      (.seq (.call (.open_ 1) 3) (.tryFinally 4 (.opaque .readNode 5 5 6) (.call (.close 1) 6))))
+    (.restore 3)))
+
+/-- **Full statement for the caller's include list** (kept visible; false today): a failed read leaves the list as
+    it was, so that the same call with the same list runs as a first call. -/
+def c08_include_list_full : Prop :=
+  ∀ (st : St) (oracle' : Nat → List Nat) (kind : Nat), (run inclToday st).1.again oracle' kind = st.again oracle' kind
+
+/-- strongest true restriction: no handle stays open, a delivered fault is raised, and the next call starts as a
+    first call except for the marks left in the list -/
+theorem c08_include_list_partial (st : St) (oracle' : Nat → List Nat) (kind : Nat) :
+    (run inclToday st).1.handles = st.handles ∧
+      (st.fired = false → (run inclToday st).1.fired = true → (run inclToday st).2.isRaised = true) ∧
+      (run inclToday st).1.again oracle' kind = { st.again oracle' kind with detached := (run inclToday st).1.detached } := by
+  have := c08_handles_only inclToday (by decide) st
+  refine ⟨this.1, this.2, ?_⟩
+  simp only [St.again, this.1]
+
+/-- one HDF5 include, fault at its 2nd file-layer call (a read): the include stays marked -/
+theorem c08_include_list_witness : ¬ c08_include_list_full := by
+  intro h
+  have := congrArg St.detached (h (St.init (oracleOf [(1, [1]), (5, [3])]) (some 1) 1) (oracleOf []) 1)
+  revert this
+  decide
+
+/-- the repaired shape is protected: the full statement holds for it (instance of `c08_failed_call_leaves_no_mark`) -/
+theorem c08_include_list_fixed (st : St) (oracle' : Nat → List Nat) (kind : Nat) :
+    (run inclFixed st).1.again oracle' kind = st.again oracle' kind :=
+  c08_failed_call_leaves_no_mark inclFixed (c08_criterion _ (by decide)) st oracle' kind
+
 end NmlVerif.Fault
 
 namespace NmlVerif.Trunc
